@@ -1724,7 +1724,18 @@ func c08Record(v *c08env) {
 						continue
 					}
 				default:
-					cl.fail("c", "the result pushed does not depend on the error flag of the call", st)
+					// the error flag was not consulted on this path: whatever is recorded here is
+					// also recorded for a FAILED call that takes this path
+					switch got {
+					case "CallResultSlow":
+						cl.fail("c", "a call is recorded as CallResultSlow because of its duration before the error flag is looked at: a failed call that also reached slowCallDurationThreshold (a timeout) counts as slow, not as a failure — the failure must take precedence, else the failure rate misses exactly the calls that time out", st)
+					case "CallResultSuccess":
+						cl.fail("c", "a call is recorded as CallResultSuccess without the error flag having been looked at: failed calls on this path never reach the failure rate", st)
+					case "CallResultFailure":
+						cl.fail("c", "a call is recorded as CallResultFailure without the error flag having been looked at: successful calls on this path count as failures", st)
+					default:
+						cl.fail("c", "the result pushed does not depend on the error flag of the call", st)
+					}
 					continue
 				}
 				if got != want {
